@@ -5,7 +5,7 @@
 From Coq Require Import List Arith Bool.
 Import ListNotations.
 From C17 Require Import Sem Progs Static Annot FutRaw.
-From C17 Require Exec ExecLive.
+From C17 Require Exec ExecLive Ss.
 
 (* Data-race freedom of the model: whenever a thread is about to execute an instruction that reads
    or writes a shared variable or the callback queue, it owns the mutex that protects it
@@ -135,3 +135,29 @@ Theorem c17_no_lost_wakeup : forall lims s, reach P (init_exec lims) s -> stat (
   exists t pick s', exec P s (LStep t pick) = Some s'.
 Proof. exact ExecLive.no_deadlock. Qed.
 Print Assumptions c17_no_lost_wakeup.
+
+(* ---- the event loop's cross-thread executor (scenario init_ss lims rs k: thread 0 owns a SelectServer,
+   starts the producers, calls RunOnce() k times, joins the producers and destroys the SelectServer;
+   thread 1+i calls SelectServer::Execute (nth i lims) times; the first (nth i rs) callbacks of producer
+   1+i call Execute AGAIN from inside the callback - their children are submitted by thread 0 with
+   sequence numbers 0,1,2,...), for every number of producers/callbacks/re-submissions/RunOnce calls and
+   EVERY schedule.  subm = callbacks in the order Execute queued them, ran = (callback, thread) in run order.
+   1. no hazard is reachable;
+   2. no callback id is queued twice and ran is a PREFIX of subm: each callback is run at most once, in
+      exactly the order queued (hence per submitting thread in submission order) - in particular a callback
+      submitted from inside a callback is queued, not run inside that Execute call;
+   3. callbacks are run by the loop thread only (never by a producer inside its Execute);
+   4. every submitter's callbacks are queued with sequence numbers 0,1,2,...;
+   5. when the owner has finished (~SelectServer returned) every thread has finished, the incoming queue is
+      empty and ran = subm: everything pending at destruction, including callbacks queued by callbacks run
+      during destruction, has been run exactly once. *)
+Theorem c17_ss_exec_once : forall lims rs k s, reach P (init_ss lims rs k) s ->
+  fault s = None /\
+  NoDup (subm s) /\
+  (exists rest, subm s = map fst (ran s) ++ rest) /\
+  (forall c t, In (c, t) (ran s) -> t = 0) /\
+  (forall j, j < 1 + length lims -> exists n, map snd (filter (fun c => fst c =? j) (subm s)) = seq 0 n) /\
+  (stat (thr s 0) = Done -> que s INQ = [] /\ map fst (ran s) = subm s /\
+                            forall t, t < nthr s -> stat (thr s t) = Done).
+Proof. exact Ss.ss_exec_once. Qed.
+Print Assumptions c17_ss_exec_once.
